@@ -29,7 +29,7 @@ MIN_EVAL = {"quick": {"counts": 150, "corner_set": 150, "ccw_order": 150, "inter
 
 def cases(tier, seed):
     rng = np.random.default_rng([seed, 1818])
-    n = 110 if tier == "quick" else 2200
+    n = 110 if tier == "quick" else 12000
     for i in range(n):
         yield {"mesh": gen.random_mesh(rng, 150 if tier == "quick" else 900), "dseed": int(rng.integers(0, 10**6))}
 
